@@ -313,9 +313,9 @@ MANIFEST_TEXT = {
         "technique": "Lean 4 proof: relational (partial-correctness) program logic tying the scan loop to an independent box walker, list lemma for the maximal media run, Hoare-style loop invariant for the span bound; differential correspondence across reader kinds with the same executable specification",
     },
     "C04": {
-        "text": "Lean theorems: the table rewrite preserves width, count, array length, serialized length and the 8 bytes before the array; a parsed ftyp re-serializes to its bytes for every length >= 8. Spec_C04 compares, on the real output, the ftyp payload and every moov payload byte outside the walker's tables with the input, on rich trees (unknown/uuid siblings at all five levels, 64-bit and until-end child headers).",
-        "note": "Partial: the frame property over the whole tree is checked per case on the implementation; the theorem covers the mutation itself and the ftyp codec. Trusted: as C01.",
-        "technique": "Lean 4 proof of the rewrite's frame at table level + byte-level differential check against an independent walker",
+        "text": "Lean theorem C04_carried (for EVERY stream, configuration and cursor kind): whenever the model of sanitize returns metadata, the ftyp payload inside it is the payload of the input's ftyp box byte for byte, and the moov payload inside it is the payload of the input's last moov (as the INDEPENDENT walker delimits it) with every byte outside the chunk-offset tables the walker finds in it (moovTables) unchanged, at the same place, in the same length - the frame property over the five nesting levels (Lemmas/Splice.lean, Fusion.lean, KeepRel.lean; shared with C01_relocated). Component theorems: the table rewrite preserves width, count, array length, serialized length and the 8 bytes before the array; a parsed ftyp re-serializes to its bytes for every length >= 8. Spec_C04 compares, on the real output, the ftyp payload and every moov payload byte outside the walker's tables with the input, on rich trees (unknown/uuid siblings at all five levels, 64-bit and until-end child headers).",
+        "note": "Partial only in this: the theorem speaks of the tables the walker finds in the INPUT; Spec_C04 (walker run on the OUTPUT) is decided per generated case on the implementation. Trusted: as C01.",
+        "technique": "Lean 4 proof of the rewrite's frame over the whole box tree (splice lemma against an independent walker, fusion of lazy parsing, scan-loop invariant) + byte-level differential check against the walker on the real output",
     },
     "C05": {
         "text": "Lean theorems C05_accept_rules / C05_accept_top_rules / C05_nometadata_iff / C05_spec_noop (SOUNDNESS of the documented rules, for EVERY stream, configuration and cursor kind): whenever the model of sanitize returns a result, Rules of the independent specification (Spec/Mp4Rules.lean over the independent walker) holds of the input: a clean sequence of complete top-level boxes in which only free/skip precede the single ftyp, ftyp payload 8..1024 bytes listing isom, every box ftyp/moov/mdat/free/skip/meta/meco, at least one moov and one mdat, every mdat in the one media run, and every moov within max_metadata_size whose children are a clean box sequence with at least one trak, each trak holding exactly one mdia>minf>stbl chain with exactly one version-0 stco xor co64 whose count exactly fills its box (below 4 GiB); no metadata is returned exactly when the Spec's NoMetadata holds, and Spec_C05 has no complaint about such an answer. Proved with the relational program logic (Lemmas/Tri.lean; ScanRel/TopRel: the scan loop refines a top-level state machine over the walker's boxes; TreeRel: the model's lazily parsed tree over a slice of the stream sees exactly the walker's children/only/tableOf of that region, level by level) and list lemmas. Further (decision logic stated outright): a chunk-offset table is accepted iff version/flags are zero, the count exactly fills the box and the table is below 4 GiB, with the error kind of each violation; after the scan missing ftyp/moov/mdat is MissingRequiredBox and 'nothing to do' is returned iff the last moov starts before the first mdat; ftyp payloads below 8 bytes are TruncatedBox. Spec_C05 (accepted iff Rules and not an overflow refusal; no-op iff moov first), written over the independent walker, is evaluated on the real code over exhaustive top-level layouts, header pathologies, every moov-tree rule broken in turn and truncations, for both reader kinds.",
@@ -323,9 +323,9 @@ MANIFEST_TEXT = {
         "technique": "Lean 4 proof of the component decisions + exhaustive small-layout differential check against a declarative rule set",
     },
     "C01": {
-        "text": "Lean theorems about the model of the MP4 rewrite: planRewrite arithmetic (shift = |metadata| - span.offset, fits i32, padding only when it zeroes the shift, refusal iff neither fits), exactness of the table rewrite for every width/count/displacement (each entry = old + shift, field never wraps, refusal iff an entry leaves its field, no panic), and the per-entry test equals the extracted checked_add_signed. The model is compared with the real crate on the remux generator (sparse gaps up to > 2^33, boundary entries, both reader kinds) and on tables whose entry count crosses the 8- and 16-bit boundaries (255..257, 65535..65537 entries, stco and co64, next to a small table of the other width) and Spec_C01 (independent walker: same tables, every entry shifted by |md| - span.offset) is evaluated on the real output of every case.",
-        "note": "Partial: the theorems cover the decision arithmetic and the table rewrite; that the traversal reaches exactly the tables of every trak is established per generated case by the walker-based Spec, not by a theorem. Trusted: Lean kernel; propext, Quot.sound, Classical.choice; the hand-written model (validated differentially); the walker; harness + driver.",
-        "technique": "Lean 4 proof (induction over the entry array; case analysis of the rewrite plan) + differential correspondence with spec evaluation on the implementation's output",
+        "text": "Lean theorem C01_relocated (for EVERY stream, configuration and cursor kind): whenever the model of sanitize returns metadata, the INDEPENDENT walker finds the input to be a clean top-level box sequence with a last moov m whose chunk-offset tables are moovTables s m = rs (one per trak, stco or co64); the moov payload sits in the returned metadata at an explicit offset mo, and EVERY entry of EVERY table of rs, read from the metadata at the same place relative to the payload, equals the input entry plus (|metadata| - span.offset) exactly, inside its field (no wrap, no truncation). Proved from: what a mutation of one table does to the serialisation of the freshly parsed five-level box tree, stated against the walker's geometry (Lemmas/Splice.lean: the region's bytes with exactly that table's entries replaced, level by level up to every trak of the moov); the displacement running on the tree the scan has already partly parsed gives the same bytes as on the payload as read (Fusion.lean); the moov the scan keeps is the walker's LAST moov, validated from exactly its payload bytes (KeepRel.lean, relational triples over the scan loop); the entry arithmetic (Mp4Displace.lean) and the plan arithmetic (metadata length incl. padding - offset = the displacement applied, 0 when padded). Further Lean theorems about the model of the MP4 rewrite: planRewrite arithmetic (shift = |metadata| - span.offset, fits i32, padding only when it zeroes the shift, refusal iff neither fits), exactness of the table rewrite for every width/count/displacement (each entry = old + shift, field never wraps, refusal iff an entry leaves its field, no panic), and the per-entry test equals the extracted checked_add_signed. The model is compared with the real crate on the remux generator (sparse gaps up to > 2^33, boundary entries, both reader kinds) and on tables whose entry count crosses the 8- and 16-bit boundaries (255..257, 65535..65537 entries, stco and co64, next to a small table of the other width) and Spec_C01 (independent walker: same tables, every entry shifted by |md| - span.offset) is evaluated on the real output of every case.",
+        "note": "Partial only in this: the theorem locates the tables in the returned metadata by the INPUT's geometry (same place relative to the moov payload); that the independent walker, run on the OUTPUT, finds them there (the frame property of the walker) is decided per generated case by Spec_C01 on the real output, not by a theorem. Trusted: Lean kernel; propext, Quot.sound, Classical.choice; the hand-written model (validated differentially); the walker; harness + driver.",
+        "technique": "Lean 4 proof: relational program logic over the scan loop + structural induction over the five-level lazily parsed box tree against an independent walker (splice lemma), fusion of lazy parsing, induction over the entry array, case analysis of the rewrite plan; differential correspondence with spec evaluation on the implementation's output",
     },
     "C17": {
         "text": "Schema-generic Lean theorems (parse∘put = id on well-formed values, put∘parse = id on the success domain, no panic with >= ENCODED_LEN bytes, reserved-byte violations are InvalidInput) instantiated at chunk schemas regenerated from webpsan/src/parse/*.rs on every run; table obligations (by decide) that every integer getter/putter pair agrees and is little-endian, that put_buf writes fields in parse order, and that declared ENCODED_LEN is the field sum. Correspondence through the public webpsan::parse API, exhaustive for 8/16-bit primitives, judged against a hand-written little-endian layout oracle.",
